@@ -365,6 +365,14 @@ FAMILIES = {
     'len.digits-urange': (lambda k: 'a{x:U+' + 'F' * min(k, 12) + '-' + '9' * min(k, 12) + ';y:1}', 30),
     'len.digits-hash': (lambda k: 'a{color:#' + 'f' * k + ';y:1}', 60),
     'len.exponent': (lambda k: 'a{x:1e' + '9' * k + '}', 60),
+    # many escapes inside a string/identifier of a *validated* property whose value then fails the profile: a regex that can split the escapes
+    # in more than one way backtracks exponentially
+    'len.string-escapes-quotes': (lambda k: 'a{quotes:"' + '\\z' * k + '" "a" "b";y:1}', 60),
+    'len.string-escapes-content': (lambda k: 'a{content:"' + '\\A ' * k + '" / "alt";y:1}', 60),
+    'len.string-escapes-font': (lambda k: "a{font-family:'" + '\\\\' * k + "' 12px;y:1}", 60),
+    'len.string-escapes-src': (lambda k: '@font-face{font-family:x;src:url("' + '\\(' * k + '") format("' + '\\"' * k + '") 1}', 60),
+    'len.ident-escapes-font': (lambda k: 'a{font-family:' + 'a\\ ' * k + 'b 12px !x;y:1}', 60),
+    'len.string-escapes-url': (lambda k: 'a{background-image:url("' + '\\)' * k + '") 1 1 1;y:1}', 60),
     'len.backslashes': (lambda k: 'a{x:' + '\\\\' * k + '}', 100),
     'len.backslash-newlines': (lambda k: 'a{x:"' + '\\\n' * k + '"}', 100),
     'len.dashes': (lambda k: 'a{x:' + '-' * (k * 5) + 'b}', 100),
